@@ -1,4 +1,5 @@
 import datetime
+import decimal
 import functools
 import math
 import re
@@ -811,6 +812,10 @@ class ValueDecimal(Value):
 
     def __repr__(self):
         result = repr(self.value)
+        if "e" in result:
+            # exponent notation is not a decimal literal of the language:
+            # write the same number positionally
+            result = format(decimal.Decimal(result), "f")
         if "." not in result:
             result += ".0"
         return result
